@@ -27,6 +27,8 @@ def _make_stored(desc):
     cols = desc.get('columns', {})
     for k, v in cols.items():
         try:
+            if k in ('cryptographic_algorithm', 'cryptographic_length') and desc['class'] != 'X509Certificate':
+                continue        # keep a consistent (algorithm, length, value) triple from the constructor
             if k in ('state', 'sensitive', 'operation_policy_name', 'cryptographic_algorithm',
                      'cryptographic_length', 'initial_date', 'certificate_type', 'key_format_type'):
                 if v is not None or k in ('operation_policy_name',):
@@ -53,22 +55,78 @@ def _make_stored(desc):
     return o, cols
 
 
-def _patch_uid(payload, uid):
-    """Point the request at the stored object (the model's identifier text is arbitrary)."""
-    for f in ('_unique_identifier', 'unique_identifier'):
-        cur = getattr(payload, '__dict__', {}).get(f)
-        if cur is None:
-            continue
-        if hasattr(cur, 'value'):
-            cur.value = uid
-        elif isinstance(cur, str):
-            payload.__dict__[f] = uid
-    ids = getattr(payload, '__dict__', {}).get('_unique_identifiers')
-    if isinstance(ids, list) and ids:
-        payload.__dict__['_unique_identifiers'] = [uid for _ in ids]
+def _dump_store(path):
+    """every row of every table of the SQLite file (committed state), by table name"""
+    import sqlite3
+    out = {}
+    try:
+        con = sqlite3.connect(path)
+        for (t,) in con.execute("select name from sqlite_master where type='table'").fetchall():
+            out[t] = sorted(repr(r) for r in con.execute('select * from "%s"' % t).fetchall())
+        con.close()
+    except Exception as e:
+        out['__error__'] = [str(e)]
+    return out
+
+
+def _patch_uids(payload, uids):
+    """Point the request at the stored objects (the model's identifier texts are arbitrary): the
+    identifier holders of the payload tree, in traversal order, get the identifiers of the stored
+    objects in the order the failing path loaded them."""
+    slots = []
+    seen = set()
+
+    def walk(o, depth=0):
+        if depth > 6 or id(o) in seen or not hasattr(o, '__dict__'):
+            return
+        seen.add(id(o))
+        d = o.__dict__
+        for f in ('_unique_identifier', 'unique_identifier'):
+            cur = d.get(f)
+            if cur is not None and (hasattr(cur, 'value') or isinstance(cur, str)):
+                slots.append((o, f))
+                break
+        ids = d.get('_unique_identifiers')
+        if isinstance(ids, list):
+            for k in range(len(ids)):
+                slots.append((ids, k))
+        for k, v in list(d.items()):
+            if k in ('_unique_identifier', 'unique_identifier', '_unique_identifiers'):
+                continue
+            if isinstance(v, list):
+                for x in v:
+                    walk(x, depth + 1)
+            else:
+                walk(v, depth + 1)
+    walk(payload)
+    for n, (holder, key) in enumerate(slots):
+        uid = uids[min(n, len(uids) - 1)]
+        if isinstance(holder, list):
+            if hasattr(holder[key], 'value'):
+                holder[key].value = uid
+            else:
+                holder[key] = uid
+        else:
+            cur = holder.__dict__[key]
+            if hasattr(cur, 'value'):
+                cur.value = uid
+            else:
+                holder.__dict__[key] = uid
 
 
 def replay_handler(c, obligation, cex):
+    out = _replay_handler(c, obligation, cex, False)
+    if not out.get('confirmed') and '/trace.' in obligation:
+        # the model leaves the outcome of the cryptographic primitives open; the real ones may refuse the
+        # model's arbitrary parameters: second run with the primitives answering as the model assumed
+        out2 = _replay_handler(c, obligation, cex, True)
+        if out2.get('confirmed'):
+            out2['cryptography_engine_stubbed'] = 'returns fixed bytes (the outcome the failing path assumed)'
+            return out2
+    return out
+
+
+def _replay_handler(c, obligation, cex, stub_crypto):
     from . import replay as RP
     from kmip.services.server import engine as EN
     from kmip.core import exceptions
@@ -83,6 +141,14 @@ def replay_handler(c, obligation, cex):
         lg.disabled = True
         e._logger = lg
         e._data_session = e._data_store_session_factory()
+        if stub_crypto:
+            import unittest.mock as _mock
+            ce = _mock.MagicMock()
+            for nm in ('wrap_key', 'decrypt', 'sign', 'mac', 'derive_key'):
+                getattr(ce, nm).return_value = bytes(range(24))
+            ce.encrypt.return_value = {'cipher_text': bytes(16), 'iv_nonce': None, 'auth_tag': None}
+            ce.verify_signature.return_value = True
+            e._cryptography_engine = ce
         ident = (cex.get('self') or {}).get('_client_identity') or ['replay-user', None]
         user = ident[0] if isinstance(ident[0], str) and ident[0] else 'replay-user'
         e._client_identity = [user, ident[1] if len(ident) > 1 and ident[1] else None]
@@ -101,11 +167,12 @@ def replay_handler(c, obligation, cex):
         e._id_placeholder = uids[0] if (uids and ph is not None) else None
         payload = RP.build_native(cex.get('payload'))
         if uids:
-            _patch_uid(payload, uids[0])
+            _patch_uids(payload, uids)
         out["protocol_version"] = list(ver)
         out["payload"] = repr(getattr(payload, '__dict__', payload))[:600]
         fname = c.qualname.rsplit('.', 1)[-1]
         raised = None
+        before = _dump_store(os.path.join(d, 'db'))
         try:
             result = getattr(e, fname)(payload)
             out["outcome"] = "returned %s" % type(result).__name__
@@ -114,6 +181,28 @@ def replay_handler(c, obligation, cex):
             out["outcome"] = "raised %s: %s" % (type(ex).__name__, str(ex)[:200])
             out["traceback_tail"] = traceback.format_exc()[-700:]
         kind = obligation.split('/', 1)[1] if '/' in obligation else obligation
+        pending = []
+        try:
+            sess = e._data_session
+            pending = ["new %s" % type(x).__name__ for x in sess.new] + \
+                      ["changed %s" % type(x).__name__ for x in sess.dirty if sess.is_modified(x)] + \
+                      ["deleted %s" % type(x).__name__ for x in sess.deleted]
+        except Exception:
+            pass
+        after = _dump_store(os.path.join(d, 'db'))
+        changed = sorted(t for t in set(before) | set(after) if before.get(t) != after.get(t))
+        out["store_tables_changed"] = changed
+        out["session_pending"] = pending
+        if kind.startswith('trace.no-effect-before-raise') or kind.startswith('trace.get-never-writes') \
+                or kind.startswith('trace.reads-only'):
+            failing = raised is not None or not kind.startswith('trace.no-effect')
+            if failing and (changed or pending):
+                out["confirmed"] = True
+                out["violated"] = ("the real handler %s and the store differs afterwards: committed tables %s, "
+                                   "pending in the shared batch session %s" % (
+                                       "raised " + type(raised).__name__ if raised is not None else "returned",
+                                       changed, pending))
+                return out
         if kind.startswith('raises.unexpected'):
             out["confirmed"] = raised is not None and not isinstance(raised, exceptions.KmipError)
             if out["confirmed"]:
